@@ -235,7 +235,9 @@ var litPool = func() map[string][]literal {
 		"hexadecimal": {"0x0", "0x1", "0xff", "0x00ff", "0xdeadbeef", "0x7fffffffffffffff", "0x8000000000000000", "0xffffffffffffffff"},
 		"float": {"0.0", "1.5", "-1.5", "+1.5", "0.125", "3.14159", "10.0", "0.1", "123456789.125", "1.0E+10", "1.0e-10", "2.5E+100", "-2.5e-100",
 			"1.7976931348623157E+308", "4.9E-324", "6.02E+23", "1.0e+1", "9.99E+99", "1.25E-7"},
-		"complex": {"(1.0+2.0i)", "(-1.5-0.5i)", "(0.0+0.0i)", "(1.0E+2-3.0e-1i)", "(+2.0+1.0i)", "(0.5-1.0E+10i)"},
+		"complex": {"(1.0+2.0i)", "(-1.5-0.5i)", "(0.0+0.0i)", "(1.0E+2-3.0e-1i)", "(+2.0+1.0i)", "(0.5-1.0E+10i)",
+			// same phase, magnitudes whose squares overflow or underflow
+			"(1.0E+200+0.0i)", "(2.0E+200+0.0i)", "(1.0E-200+0.0i)", "(2.0E-200+0.0i)", "(1.0E+200+1.0E+200i)", "(2.0E+200+2.0E+200i)"},
 		"nil":     {"nil"},
 		"rune":    {`'a'`, `'Z'`, `'0'`, `' '`, `'"'`, `'\''`, `'\\'`, `'\n'`, `'\t'`, `'\a'`, `'\x41'`, `'\x7f'`, `'\x80'`, `'\xe9'`, `'\xff'`, `'\u00e9'`, `'\U0001f600'`, `'é'`, `'😀'`, `'\v'`, `'['`, `','`},
 		"string": {`""`, `"a"`, `"hello world"`, `"with \"quotes\""`, `"tab\there"`, `"\x41é\U0001f600"`, `"ünïcödé"`, `"😀"`, `"back\\slash"`, `"[](List)"`,
@@ -286,6 +288,9 @@ type sentence struct {
 	Text   string
 	Want   *node
 	Tokens int
+	// DeepSet > 0: the sentence is a Set whose two members are equal down to
+	// this nesting depth (the Set has to compare them that far)
+	DeepSet int
 }
 
 type gen struct {
@@ -322,11 +327,8 @@ func (g *gen) collectionOf(ctx string, depth int, inSet bool, forceItems int) (s
 	if ctx == "Queue" && maxItems > 16 {
 		maxItems = 16
 	}
-	if ctx == "Stack" && maxItems > 16 {
-		maxItems = 16 // more values than a stack's capacity is C13's subject
-	}
-	if ctx == "Map" && inSet && maxItems > 1 {
-		maxItems = 1 // keep Go map iteration order out of ordered contexts
+	if ctx == "Map" && inSet && maxItems > 3 {
+		maxItems = 3 // Maps as (parts of) Set members: the collator ranks them over their sorted keys, whatever Go's iteration order
 	}
 	n := forceItems
 	if n < 0 {
@@ -646,3 +648,103 @@ func assocSentence(idx int) sentence {
 	want.Kids = meaningOf(ctx, len(items) > 0, kids)
 	return sentence{Text: b.String(), Want: want}
 }
+
+// poolSentence: ALL literals of one Intrinsic alternative as the members of one
+// Set (distinct literals must stay distinct members, whatever their magnitude)
+// and, as a control, of one List; inline and multi-line.
+func poolSentenceCount() int { return len(intrinsicAlts)*2*2 + len(setsOfMaps)*2 }
+
+// setsOfMaps: Sets whose members are Maps with several keys, equal ones written
+// in different key orders: membership must not depend on Go's map iteration.
+var setsOfMaps = [][][][2]string{
+	{{{`"a"`, "1"}, {`"b"`, "2"}}, {{`"b"`, "2"}, {`"a"`, "1"}}},
+	{{{`"a"`, "1"}, {`"b"`, "2"}}, {{`"b"`, "2"}, {`"a"`, "1"}}, {{`"a"`, "1"}, {`"b"`, "3"}}},
+	{{{`"a"`, "1"}, {`"b"`, "2"}, {`"c"`, "3"}}, {{`"c"`, "3"}, {`"b"`, "2"}, {`"a"`, "1"}}, {{`"b"`, "2"}, {`"c"`, "3"}, {`"a"`, "1"}}, {{`"a"`, "1"}, {`"b"`, "2"}}},
+	{{{"1", `"x"`}, {"2", `"y"`}, {"3", `"z"`}, {"4", `"w"`}}, {{"4", `"w"`}, {"3", `"z"`}, {"2", `"y"`}, {"1", `"x"`}}, {{"1", `"x"`}, {"2", `"y"`}, {"3", `"z"`}, {"4", `"v"`}}},
+}
+
+func setOfMapsSentence(idx int) sentence {
+	multi := idx%2 == 1
+	spec := setsOfMaps[(idx/2)%len(setsOfMaps)]
+	var texts []string
+	var kids []*node
+	for _, m := range spec {
+		var items []string
+		mn := &node{Kind: "Map"}
+		for _, kv := range m {
+			items = append(items, kv[0]+": "+kv[1])
+			alt := func(t string) string {
+				if strings.HasPrefix(t, `"`) {
+					return "string"
+				}
+				return "integer"
+			}
+			mn.Kids = append(mn.Kids, &node{Kind: "assoc", Kids: []*node{mustLit(alt(kv[0]), kv[0]).Val, mustLit(alt(kv[1]), kv[1]).Val}})
+		}
+		texts = append(texts, "["+strings.Join(items, ", ")+"](Map)")
+		kids = append(kids, mn)
+	}
+	text := "[" + strings.Join(texts, ", ") + "](Set)"
+	if multi {
+		text = "[\n    " + strings.Join(texts, "\n    ") + "\n](Set)\n"
+	}
+	want := &node{Kind: "Set"}
+	want.Kids = meaningOf("Set", false, kids)
+	return sentence{Text: text, Want: want}
+}
+
+func poolSentence(idx int) sentence {
+	if idx >= len(intrinsicAlts)*2*2 {
+		return setOfMapsSentence(idx - len(intrinsicAlts)*2*2)
+	}
+	multi := idx%2 == 1
+	idx /= 2
+	ctx := []string{"Set", "List"}[idx%2]
+	idx /= 2
+	alt := intrinsicAlts[idx%len(intrinsicAlts)]
+	var texts []string
+	var kids []*node
+	for _, l := range litPool[alt] {
+		texts = append(texts, l.Text)
+		kids = append(kids, l.Val)
+	}
+	text := "[" + strings.Join(texts, ", ") + "](" + ctx + ")"
+	if multi {
+		text = "[\n    " + strings.Join(texts, "\n    ") + "\n](" + ctx + ")\n"
+	}
+	want := &node{Kind: ctx}
+	want.Kids = meaningOf(ctx, false, kids)
+	return sentence{Text: text, Want: want}
+}
+
+// deepSetSentence: a Set of two equal members nested d levels deep ("nested
+// arbitrarily" meets the one context that has to compare its members).
+var deepSetDepths = []int{3, 15, 16, 17, 18, 40}
+
+func deepSetCount() int { return len(deepSetDepths) * 2 * 2 }
+
+func deepSetSentence(idx int) sentence {
+	multi := idx%2 == 1
+	idx /= 2
+	inner := []string{"List", "Set"}[idx%2]
+	idx /= 2
+	d := deepSetDepths[idx%len(deepSetDepths)]
+	return deepSetOf(d, inner, multi)
+}
+
+func deepSetOf(d int, inner string, multi bool) sentence {
+	x := "1"
+	n := &node{Kind: "int", I: 1}
+	for i := 0; i < d; i++ {
+		x = "[" + x + "](" + inner + ")"
+		n = &node{Kind: inner, Kids: []*node{n}}
+	}
+	text := "[" + x + ", " + x + "](Set)"
+	if multi {
+		text = "[\n    " + x + "\n    " + x + "\n](Set)\n"
+	}
+	return sentence{Text: text, Want: &node{Kind: "Set", Kids: []*node{n}}, DeepSet: d}
+}
+
+// collatorDepthLimit is the message of the library collator when it gives up.
+const collatorDepthLimit = "maximum traversal depth was exceeded"
